@@ -130,7 +130,9 @@ def validate(traces, jobs=16, batch=None, cfg=None, module='FBTrace.tla', timeou
 def model_check(cfg, module, workers=16, timeout=3600, extra=(), heap='8g', soft_timeout=None):
     """Run an exhaustive TLC job.  Returns (ok, stats, out).  With soft_timeout the run is
     stopped after that many seconds and reported as a bounded (non-exhaustive) exploration."""
-    workdir = tempfile.mkdtemp(prefix='fbv_mc_', dir=scratch_root())
+    # TLC's state queue and fingerprint files of a long exhaustive run are many gigabytes: on disk, not in the
+    # RAM-backed scratch directory used for sandboxes and trace batches
+    workdir = tempfile.mkdtemp(prefix='fbv_mc_', dir=tempfile.gettempdir() if os.path.isdir(tempfile.gettempdir()) else scratch_root())
     try:
         cmd = tlc_cmd(cfg, module, workers, extra=extra, metadir=os.path.join(workdir, 'meta'), heap=heap)
         t0 = time.time()
